@@ -234,6 +234,20 @@ func (m *c15Model) check(r *Run, s *Step, o *Outcome) []Violation {
 	var ends []c15End
 	for _, id := range all {
 		a, b := pre.Props[id], post.Props[id]
+		// the voting window of a proposal is fixed when voting starts, and a decided proposal stays decided
+		if a != nil && b != nil {
+			if a.Expedited && !b.Expedited {
+				r.Probe("c15-expedited-converted-to-regular") // the SDK extends the window of a failed expedited proposal
+			} else if a.VStart != nil && a.VEnd != nil && (b.VStart == nil || b.VEnd == nil || !a.VStart.Equal(*b.VStart) || !a.VEnd.Equal(*b.VEnd)) {
+				later("voting-period", "window-changed-after-activation", "proposal %d (%s): voting window %v..%v changed to %v..%v after voting had started", id, a.Type(), a.VStart, a.VEnd, b.VStart, b.VEnd)
+			}
+			final := func(st govv1.ProposalStatus) bool {
+				return st == govv1.StatusPassed || st == govv1.StatusRejected || st == govv1.StatusFailed
+			}
+			if final(a.Status) && a.Status != b.Status {
+				later("outcome-final", "status-changed-after-decision", "proposal %d (%s) was %s and is now %s", id, a.Type(), a.Status, b.Status)
+			}
+		}
 		wasDeposit := a == nil || a.Status == govv1.StatusDepositPeriod
 		// activation
 		if b != nil && wasDeposit && b.Status != govv1.StatusDepositPeriod && b.VStart != nil {
@@ -449,6 +463,25 @@ func (m *c15Model) check(r *Run, s *Step, o *Outcome) []Violation {
 				return d
 			}
 			quorum := sdkmath.LegacyMinDec(q(pre.Params, pre.Custom), q(post.Params, post.Custom))
+			// proposals that ended earlier in the same step may have set (or removed) the custom params of this
+			// type before this one was tallied: every value that was in force at some point bounds the quorum
+			for _, e2 := range ends {
+				if e2.status != "PASSED" || e2.p == nil || e2.p.ID == p.ID {
+					continue
+				}
+				for _, m2 := range e2.p.Msgs {
+					if cm, ok := m2.(*fxgovtypes.MsgUpdateCustomParams); ok && cm.MsgUrl == p.Type() {
+						qs := cm.CustomParams.Quorum
+						if qs == "" {
+							qs = pre.Params.Quorum
+						}
+						if d, err := sdkmath.LegacyNewDecFromStr(qs); err == nil {
+							quorum = sdkmath.LegacyMinDec(quorum, d)
+							r.Probe("c15-quorum-set-by-proposal-of-the-same-step")
+						}
+					}
+				}
+			}
 			_, hasCustom := pre.Custom[p.Type()]
 			r.Probe("c15-tally")
 			r.State(fmt.Sprintf("tally:%s:custom=%v:below=%v:%s", shortType(p.Type()), hasCustom, turnout.LT(quorum), st))
